@@ -1,5 +1,6 @@
 import Log4rsModel.ConfigDoc.Pipeline
 import Log4rsModel.Base.Proto
+import Log4rsModel.Routing.Spec
 /-
 Executable specification of C14, read off the English statement, on LOGICAL configurations:
 
@@ -11,23 +12,19 @@ Executable specification of C14, read off the English statement, on LOGICAL conf
     dropped; strict loading refuses whatever lossy loading reports;
   * never a panic; the three formats agree.
 
-The observation (`Obs`) is what the harness can see of a loaded configuration: refresh rate, root,
-loggers, surviving appender names, the reported errors, and the behaviour — which probe records
-each file-based appender wrote, in which encoder format, and whether it kept the previous content
-of its file.  The same rendering is used for the model's observation (Driver) so that the three
-are string-comparable.
+The observation is what the harness can see of a loaded configuration: refresh rate, root, loggers,
+surviving appender names, the reported errors (the lists, and `rep` = the number of `log4rs: …`
+lines `load_config_file` itself wrote to stderr), the PARAMETERS of every constructed component
+(`params`: encoder pattern, size limit, interval / modulate / delay, min_size, window base / count /
+pattern, path, append, a console appender's tty_only and the stream a sentinel record went to),
+and the behaviour — which probe records each file-based appender wrote (C01's `specDeliver`), in
+which encoder format, and whether it kept the previous content of its file.  The same rendering is
+used for the model's observation (Driver) so that the three are string-comparable.
 -/
 namespace Log4rs.ConfigDoc
 open Log4rs Log4rs.Literals Log4rs.Str Log4rs.Routing Log4rs.Proto
 
-/-! ### routing oracle (what C01 proves about `Logger::log`, restated on names) -/
-
-def comps (name : Key) : List (List Char) := splitOn [':', ':'] name
-
-def isCompPrefix : List (List Char) → List (List Char) → Bool
-  | [], _ => true
-  | _ :: _, [] => false
-  | a :: p, b :: s => a = b && isCompPrefix p s
+/-! ### routing: C01's executable specification, on the names of a built configuration -/
 
 def insertBy {α} (lt : α → α → Bool) (x : α) : List α → List α
   | [] => [x]
@@ -35,24 +32,23 @@ def insertBy {α} (lt : α → α → Bool) (x : α) : List α → List α
 
 def sortBy {α} (lt : α → α → Bool) (xs : List α) : List α := xs.foldr (insertBy lt) []
 
-/-- the configured loggers on the path of `target`, outermost first; the innermost decides the
-level, the appender list accumulates through additive loggers -/
-def effective (b : Built) (target : Key) : Nat × List Key :=
-  let chain := sortBy (fun (x y : LoggerCfg) => (comps x.name).length < (comps y.name).length)
-    (b.loggers.filter (fun l => isCompPrefix (comps l.name) (comps target)))
-  chain.foldl (fun (acc : Nat × List Key) l =>
-    (l.level, l.appenders ++ (if l.additive then acc.2 else []))) (b.rootLevel, b.rootAppenders)
+/-- the `Config` a built configuration is, as the routing area sees it -/
+def Built.config (b : Built) : Config :=
+  { appenders := b.appenders.map (·.name), rootLevel := b.rootLevel,
+    rootAppenders := b.rootAppenders, loggers := b.loggers }
 
 /-- does appender `a` write a record of level `lv` (threshold filters: reject above the level) -/
 def passes (a : AppenderDesc) (lv : Nat) : Bool := a.filters.all (fun f => lv ≤ f)
 
-/-- the probe indices appender `a` writes, in order (an appender attached twice writes twice).
-Before the probes the harness hands one sentinel record directly to every appender, so the encoder
-format of every file-based appender is visible even if no probe reaches it. -/
+/-- The probe indices appender `a` writes, in order: `Tree.specDeliver` (the specification C01
+proves `Logger::log` to implement) lists the attachments a record is delivered to, one entry per
+attachment — an appender attached twice writes twice.  Before the probes the harness hands one
+sentinel record directly to every appender, so the encoder format of every file-based appender is
+visible even if no probe reaches it. -/
 def written (b : Built) (probes : List (Key × Nat)) (a : AppenderDesc) : List Nat :=
   (probes.zipIdx.map (fun ((target, lv), i) =>
-    let (level, apps) := effective b target
-    if admits level lv && passes a lv then (apps.filter (· = a.name)).map (fun _ => i) else [])).flatten
+    if passes a lv then ((Tree.specDeliver b.config target lv).filter (· = a.name)).map (fun _ => i)
+    else [])).flatten
 
 /-! ### rendering of observations -/
 
@@ -76,11 +72,39 @@ def renderBuildErr : BuildErr → String
   | .nonexistent n => "N:" ++ encStr n
   | .badLoggerName n => "L:" ++ encStr n
 
+/-- the format class of the lines a file-based appender writes: J json, D the default pattern,
+P another pattern -/
 def encClass (a : AppenderDesc) : String :=
   match a.enc with
-  | 0 => "D"
-  | 1 => "P"
-  | _ => "J"
+  | .json => "J"
+  | .pattern p => if p = defaultPattern then "D" else "P"
+
+def showEnc : EncDesc → String
+  | .json => "J"
+  | .pattern p => "P" ++ encStr p
+
+def showTrig : TrigDesc → String
+  | .none => "-"
+  | .size n => "s" ++ toString n
+  | .time u n m d => "t" ++ u.name ++ ":" ++ toString n ++ ":" ++ encBool m ++ ":" ++ toString d
+  | .onstartup n => "o" ++ toString n
+
+def showRoll : RollDesc → String
+  | .none => "-"
+  | .delete => "d"
+  | .window p b c => "w" ++ toString b ++ ":" ++ toString c ++ ":" ++ encStr p
+
+/-- the parameters of a component as the harness reads them off the constructed object (its `Debug`
+output; for a console appender additionally where a sentinel record went: `o` stdout, `e` stderr,
+`-` nothing because `tty_only` is set and the stream is not a terminal) -/
+def renderParams (a : AppenderDesc) : String :=
+  encStr a.name ++ "/" ++
+  (if a.kind = 0 then
+    "c/" ++ encBool a.append ++ "/" ++ showEnc a.enc ++ "/"
+      ++ (if a.append then "-" else if a.stderr then "e" else "o")
+  else if a.kind = 1 then "f/" ++ encStr a.path ++ "/" ++ showEnc a.enc
+  else "r/" ++ encStr a.path ++ "/" ++ encBool a.append ++ "/" ++ showEnc a.enc ++ "/"
+      ++ showTrig a.trig ++ "/" ++ showRoll a.roll)
 
 def renderBuilt (b : Built) (probes : List (Key × Nat)) (prog : String) : String :=
   let apps := sortBy (fun (x y : AppenderDesc) => ltChars x.name y.name) b.appenders
@@ -91,12 +115,33 @@ def renderBuilt (b : Built) (probes : List (Key × Nat)) (prog : String) : Strin
   ++ " apps=" ++ renderRefs (apps.map (·.name))
   ++ " aerr=" ++ encList "," (sortBy ltStr (b.loadErrors.map renderLoadErr))
   ++ " berr=" ++ encList "," (sortBy ltStr (b.buildErrors.map renderBuildErr))
+  ++ " rep=" ++ toString (b.loadErrors.length + b.buildErrors.length)
+  ++ " params=" ++ encList ";" (apps.map renderParams)
   ++ " files=" ++ encList ";" (fileApps.map (fun a =>
         encStr a.name ++ ":" ++ (if a.tiny then "-" else encClass a) ++ ":"
           ++ (if a.kind = 1 then (if a.append then "k" else "g") else "-")))
   ++ " w=" ++ encList ";" (fileApps.map (fun a =>
         encStr a.name ++ ":" ++ encList "." (if a.tiny then [] else (written b probes a).map toString)))
   ++ " prog=" ++ prog
+
+/-- what `load_config_file` alone shows (no error lists, no refresh rate) -/
+def renderHead (b : Built) : String :=
+  let apps := sortBy (fun (x y : AppenderDesc) => ltChars x.name y.name) b.appenders
+  "root=" ++ toString b.rootLevel ++ ":" ++ renderRefs b.rootAppenders
+  ++ " loggers=" ++ encList ";" ((sortBy (fun (x y : LoggerCfg) => ltChars x.name y.name) b.loggers).map renderLoggerObs)
+  ++ " apps=" ++ renderRefs (apps.map (·.name))
+
+/-- a YAML document stored under an arbitrary file name and loaded with `load_config_file` -/
+def renderExt (fname : List Char) (yamlLoad : Outcome Err Built) : String :=
+  match formatOfPath fname with
+  | .error .unknown => "ext=err:unknown"
+  | .error .unsupported => "ext=err:unsupported"
+  | .ok .yaml =>
+    (match yamlLoad with
+     | .ok b => "ext=ok " ++ renderHead b
+     | .err _ => "ext=err:parse"
+     | .panic _ => "ext=PANIC")
+  | .ok _ => "ext=err:parse"
 
 def renderLossy (probes : List (Key × Nat)) (prog : String) : Outcome Err Built → String
   | .ok b => renderBuilt b probes prog
@@ -117,30 +162,75 @@ def renderFormats (yaml json toml : String) : String :=
 
 /-! ### the meaning of a logical configuration -/
 
-def meaningApp (a : AppL) : AppenderDesc :=
-  { name := a.name, kind := a.kind, path := if a.kind = 0 then [] else a.path,
-    append := a.flag.getD (if a.kind = 0 then false else true),
-    stderr := a.target.getD false,
-    enc := match a.enc with
-      | none => 0
-      | some e => if e.json then 2 else if e.pattern then 1 else 0
-    filters := (a.filters.getD []).map (fun t => (parseLevel t).getD 0)
-    tiny := a.kind = 2 && (match a.trig with
-      | .size l => (match parseSize l with | .ok n => n < TINY_LIMIT | .error _ => false)
-      | _ => false) }
+/-- is the encoder section the json encoder: only when `kind: json` is spelled out (the default
+kind is `pattern`) -/
+def EncL.isJson (e : EncL) : Bool := e.json && e.kindExplicit
+
+/-- a json encoder has no `pattern` key (`JsonEncoderConfig` denies unknown keys) -/
+def encOk : Option EncL → Bool
+  | none => true
+  | some e => !(e.isJson && e.pattern.isSome)
+
+def meaningEnc : Option EncL → EncDesc
+  | none => .pattern defaultPattern
+  | some e => if e.isJson then .json else .pattern ((e.pattern.map patternText).getD defaultPattern)
+
+/-- the trigger a trigger section stands for; `none` = its numbers are not acceptable (a size that
+does not parse / fit `u64`, an interval that does not parse / fit `i64`, a delay or minimum size
+beyond `u64`) -/
+def meaningTrig : TrigL → Option TrigDesc
+  | .size l => (parseSize l).toOption.map .size
+  | .time i m d =>
+    match (parseInterval i).toOption with
+    | some (u, n) => if d.getD 0 ≤ U64_MAX then some (.time u n (m.getD false) (d.getD 0)) else none
+    | none => none
+  | .onstartup m => if m.getD 1 ≤ U64_MAX then some (.onstartup (m.getD 1)) else none
+
+/-- the roller a roller section stands for; a fixed window must be representable: `base`, `count`
+and the last index `base + count - 1` fit `u32` (`FixedWindowRollerBuilder::build` refuses the
+window otherwise) -/
+def meaningRoll (path : Key) : RollL → Option RollDesc
+  | .delete => some .delete
+  | .window b n =>
+    if b.getD 0 ≤ U32_MAX ∧ n ≤ U32_MAX ∧ (n = 0 ∨ b.getD 0 + (n - 1) ≤ U32_MAX)
+    then some (.window (path ++ c!".{}") (b.getD 0) n) else none
+
+/-- the programmatic appender a logical appender stands for; `none` = it cannot be built (and is
+therefore reported and dropped): a level name, size, interval or window that is not acceptable, or
+a log file that cannot be created (`fsOk`) -/
+def meaningApp (a : AppL) : Option AppenderDesc :=
+  -- a filter whose level is no level name is a broken filter: reported, dropped, appender kept
+  let filters := (a.filters.getD []).filterMap parseLevel
+  if !encOk a.enc then none
+  else if a.kind = 0 then
+    some { name := a.name, kind := 0, path := [], append := a.flag.getD false,
+           stderr := a.target.getD false, enc := meaningEnc a.enc, filters }
+  else if !fsOk a.path then none
+  else if a.kind = 1 then
+    some { name := a.name, kind := 1, path := a.path, append := a.flag.getD true, stderr := false,
+           enc := meaningEnc a.enc, filters }
+  else
+    match meaningTrig a.trig, meaningRoll a.path a.roll with
+    | some t, some r =>
+      some { name := a.name, kind := 2, path := a.path, append := a.flag.getD true, stderr := false,
+             enc := meaningEnc a.enc, filters, trig := t, roll := r }
+    | _, _ => none
 
 def meaningLogger (l : LoggerL) : LoggerCfg :=
   { name := l.name, level := (parseLevel l.level).getD 0, additive := l.additive.getD true,
     appenders := l.appenders.getD [] }
 
-/-- the programmatic configuration a logical configuration stands for, before the builder -/
+/-- the programmatic configuration a logical configuration stands for, before the builder: the
+appenders that can be built, and one report for each that cannot -/
 def meaning (cfg : LogicalConfig) : RawLoad :=
   { refresh := cfg.refresh.bind parseDuration
     rootLevel := ((cfg.root.bind (·.level)).bind parseLevel).getD 4
     rootAppenders := (cfg.root.bind (·.appenders)).getD []
     loggers := cfg.loggers.map meaningLogger
-    appenders := cfg.appenders.map meaningApp
-    errors := [] }
+    appenders := cfg.appenders.filterMap meaningApp
+    errors := cfg.appenders.flatMap (fun a =>
+      ((a.filters.getD []).filter (fun t => (parseLevel t).isNone)).map (fun _ => LoadErr.filter a.name)
+      ++ (if (meaningApp a).isNone then [.appender a.name] else [])) }
 
 /-! ### injections and their prescribed effect -/
 
@@ -150,6 +240,13 @@ inductive Gran where
   | appender (a : Key)
   | filter (a : Key) (i : Nat)
   deriving Repr, DecidableEq
+
+/-- degenerate-but-well-typed time-trigger numbers: `interval: 0` (with or without `modulate`) and an
+absurdly large count.  The statement asks that such values do no harm at load time (no panic, the
+formats agree, nothing else disturbed); whether the appender is refused (reported and dropped) or
+accepted with the number as written (the code since /repo 80d997f) is left open — the specification
+accepts both. -/
+def degenerateTime (cls : String) : Bool := cls = "zero" ∨ cls = "zeromod" ∨ cls = "big"
 
 /-- the section an injected defect lies in, by its path: everything at or below an appender's
 entry is that appender's, everything at or below one of its filter entries is that filter's -/
@@ -169,46 +266,73 @@ def granOf (cls : String) (path : List Step) : Gran :=
     else .doc
   | _ => .doc
 
-def dropAppender (a : Key) (r : RawLoad) : RawLoad :=
-  { r with appenders := r.appenders.filter (·.name ≠ a), errors := r.errors ++ [.appender a] }
-
-def dropFilter (a : Key) (i : Nat) (r : RawLoad) : RawLoad :=
-  { r with appenders := r.appenders.map (fun d =>
-             if d.name = a then { d with filters := d.filters.eraseIdx i } else d),
-           errors := r.errors ++ [.filter a] }
+structure Injection where
+  cls : String
+  path : List Step
+  payload : Option Value
 
 def strictOf (r : RawLoad) : StrictResult :=
   if !r.errors.isEmpty then .errAppenders
   else if !(buildLossyNames r).buildErrors.isEmpty then .errBuild
   else .ok
 
-/-- the observation the statement prescribes for one format -/
-def prescribed (cfg : LogicalConfig) (g : Gran) (probes : List (Key × Nat)) (prog : String) : String :=
-  match g with
-  | .doc => "lossy=err strict=err:parse"
-  | .none =>
-    let r := meaning cfg
-    renderBuilt (buildLossyNames r) probes prog ++ " " ++ renderStrict (strictOf r)
-  | .appender a =>
-    let r := dropAppender a (meaning cfg)
-    renderBuilt (buildLossyNames r) probes prog ++ " " ++ renderStrict (strictOf r)
-  | .filter a i =>
-    let r := dropFilter a i (meaning cfg)
-    renderBuilt (buildLossyNames r) probes prog ++ " " ++ renderStrict (strictOf r)
+/-- the logical configuration with an accepted degenerate interval written into it -/
+def withInterval (cfg : LogicalConfig) (a : Key) (v : Value) : LogicalConfig :=
+  { cfg with appenders := cfg.appenders.map (fun x =>
+      if x.name = a then
+        match x.trig with
+        | .time _ m d => { x with trig := .time v.toScalar m d }
+        | _ => x
+      else x) }
 
-/-- degenerate-but-well-typed time-trigger numbers: `interval: 0` (with or without `modulate`) and an
-absurdly large count.  The statement asks that such values do no harm at load time (no panic, the
-formats agree, nothing else disturbed); whether the appender is refused (reported and dropped) or
-accepted with a harmless meaning (the code since /repo 80d997f: a count below 1 counts as 1, an
-absurd count means "never roll") is left open — the specification accepts both. -/
-def degenerateTime (cls : String) : Bool := cls = "zero" ∨ cls = "zeromod" ∨ cls = "big"
+/-- one resolution of the choices the statement leaves open -/
+structure Choice where
+  /-- degenerate time numbers: refuse the appender (true) or accept the number (false) -/
+  refuseDegenerate : Bool
+  /-- a broken filter inside an appender that is itself dropped: is the filter reported too -/
+  reportFiltersOfDropped : Bool
 
-def progOf (cls : String) : String := if cls = "-" ∨ cls = "null" then "same" else "skip"
+/-- The observation the statement prescribes for one format, for a list of simultaneous injected
+defects: any defect outside the appender table rejects the document; otherwise every appender that
+contains a defect outside its filter list is reported once and dropped, every broken filter of a
+surviving appender is reported and dropped, and nothing else changes (references to dropped
+appenders become dangling and are reported by the builder). -/
+def prescribed (cfg : LogicalConfig) (injs : List Injection) (ch : Choice)
+    (probes : List (Key × Nat)) (prog : String) : String :=
+  let effective := injs.filter (fun i => !(degenerateTime i.cls && !ch.refuseDegenerate))
+  let accepted := injs.filter (fun i => degenerateTime i.cls && !ch.refuseDegenerate)
+  let grans := effective.map (fun i => granOf i.cls i.path)
+  if grans.contains .doc then "lossy=err strict=err:parse" else
+  let cfg' := accepted.foldl (fun c i =>
+    match i.path, i.payload with
+    | .key _ :: .key a :: _, some v => withInterval c a v
+    | _, _ => c) cfg
+  let base := meaning cfg'
+  let droppedApps := (grans.filterMap (fun g => match g with | .appender a => some a | _ => none)).eraseDups
+  let droppedFilters := (grans.filterMap (fun g => match g with | .filter a i => some (a, i) | _ => none)).eraseDups
+  let apps := (base.appenders.filter (fun d => !droppedApps.contains d.name)).map (fun d =>
+    { d with filters := (d.filters.zipIdx.filter (fun (_, i) => !droppedFilters.contains (d.name, i))).map (·.1) })
+  let survives := fun (a : Key) => (apps.map (·.name)).contains a
+  let errs := base.errors ++ (droppedApps.filter (fun a => !base.errors.contains (.appender a))).map LoadErr.appender
+    ++ (droppedFilters.filter (fun (a, _) => survives a || ch.reportFiltersOfDropped)).map (fun (a, _) => LoadErr.filter a)
+  let r : RawLoad := { base with appenders := apps, errors := errs }
+  renderBuilt (buildLossyNames r) probes prog ++ " " ++ renderStrict (strictOf r)
 
-/-- acceptable observation lines -/
-def acceptable (cfg : LogicalConfig) (cls : String) (path : List Step) (probes : List (Key × Nat)) :
-    List String :=
-  let one := fun g => let o := prescribed cfg g probes (progOf cls); renderFormats o o o
-  if degenerateTime cls then [one (granOf cls path), one .none] else [one (granOf cls path)]
+def progOf (injs : List Injection) : String :=
+  if injs.all (fun i => i.cls = "-" ∨ i.cls = "null") then "same" else "skip"
+
+/-- Acceptable observation lines: one per resolution of the open choices.  YAML and JSON get the
+same prescription; TOML differs only where it cannot WRITE the document: a `null` (the entry is
+then absent, so an injected null is no defect there) or an integer outside `i64` (the file does not
+parse; `tomlCannotWrite` says whether the document at hand contains such an integer). -/
+def acceptable (cfg : LogicalConfig) (injs : List Injection) (tomlCannotWrite : Bool)
+    (probes : List (Key × Nat)) : List String :=
+  let tomlInjs := injs.filter (fun i => match i.payload with | some .null => false | _ => true)
+  let one := fun ch =>
+    let o := prescribed cfg injs ch probes (progOf injs)
+    let t := if tomlCannotWrite then "lossy=err strict=err:parse"
+             else prescribed cfg tomlInjs ch probes (progOf injs)
+    renderFormats o o t
+  [one ⟨true, true⟩, one ⟨true, false⟩, one ⟨false, true⟩, one ⟨false, false⟩]
 
 end Log4rs.ConfigDoc
